@@ -1,5 +1,6 @@
 (* Case runner for C03: decodes harness cases, runs the merge model, judges the implementation.
    input    = ["merge"; [profile dumps]; [[(mapping id, kernel relocation symbol)] per input]]
+            | ["compact"; [one profile dump]; [..]]  (p.Compact(); same observable, same judgement as Merge [p])
             | ["skey"; sample]                      (byte-level check of sampleKey)
             | ["lkey"; profile with one location]   (field-level check of Location.key, lines string included)
    observed = ["ok"; dump; [shared pointer paths]; inputs-modified; compact-is-identity;
@@ -22,7 +23,9 @@ Definition run_C03 (i : term) : term :=
     | [] => TL [TS "none"]
     end
   else
-  match merge (inputs_of i) with
+  match (if String.eqb (gs (gn i 0)) "compact"
+         then match inputs_of i with [p] => compact p | _ => MErr end
+         else merge (inputs_of i)) with
   | MOk q => TL [TS "ok"; of_profile q]
   | MErr => TL [TS "err"]
   | MPanic => TL [TS "panic"]
